@@ -7,6 +7,7 @@ import JsonC.Lemmas.TokenerXGap
 import JsonC.Lemmas.TokenerXLit
 import JsonC.Lemmas.TokenerQStr
 import JsonC.Lemmas.TokenerXCtl
+import JsonC.Lemmas.TokenerXNum
 namespace JsonC.Tokener
 open JsonC Rfc8259 Rfc8259X
 
@@ -41,10 +42,27 @@ RFC 8259 document `x` stands for -/
 def XGoal (lc : Libc) (x : XDoc) : Prop :=
   ∀ (t : Tok) (l : Loc) (cur : JVal) (rest : List Level), WF t → t.stack = ⟨.eatws, .start, cur, none⟩ :: rest →
     NoVal t → t.hs = 0 → l.num = none → t.strict = false → x.ok = true → x.erase.keysNulFree = true →
-    rest.length + 1 + x.erase.nest ≤ t.maxDepth → Parsed lc t l x.text x.erase.denote none rest
+    rest.length + 1 + x.erase.nest ≤ t.maxDepth → Parsed lc t l x.text x.denote none rest
 
 theorem capsText_cons (b : UInt8) (bs : Bytes) (c : Bool) (cs : List Bool) :
     capsText (b :: bs) (c :: cs) = (if c then b - 32 else b) :: capsText bs cs := rfl
+
+/-- the first byte of a number with number extensions: '-' or a digit -/
+theorem xnum_first (x : XNum) (hok : x.ok = true) : ∃ b r, x.text = b :: r ∧ ValueStart b := by
+  obtain ⟨hb, _⟩ := xnum_ok_parts x hok
+  obtain ⟨hi, _, _⟩ := num_ok_parts x.base hb
+  have hz := digitsOk_lt _ (digitsOk_zeros x.zeros x.base.int hi)
+  have htxt : x.text = signByte x.base.neg ++ (digitsText (List.replicate x.zeros 0 ++ x.base.int) ++
+      (fracText x.base.frac ++ (expText x.base.exp ++ bareText x.bare))) := by
+    simp [XNum.text, XNum.lit, digitsText_zeros, List.append_assoc]
+  cases hneg : x.base.neg with
+  | true => exact ⟨45, _, by rw [htxt, hneg]; rfl, by decide⟩
+  | false =>
+    cases hds : List.replicate x.zeros 0 ++ x.base.int with
+    | nil => exact absurd hds hz.2
+    | cons d r =>
+      refine ⟨digitByte d, _, by rw [htxt, hneg, hds]; simp only [signByte, digitsText, List.map_cons]; rfl, ?_⟩
+      exact digitByte_start d (hz.1 d (by rw [hds]; simp))
 
 /-- the first byte of an extended value -/
 theorem xdoc_first (d : XDoc) (hok : d.ok = true) : ∃ b r, d.text = b :: r ∧ ValueStart b := by
@@ -58,8 +76,8 @@ theorem xdoc_first (d : XDoc) (hok : d.ok = true) : ∃ b r, d.text = b :: r ∧
   | arr g es tr => cases es <;> exact ⟨91, _, rfl, by decide⟩
   | obj g ms tr => cases ms <;> exact ⟨123, _, rfl, by decide⟩
   | num n =>
-    obtain ⟨b, r, h, hb⟩ := doc_first (.num n) (by simpa [Doc.ok, XDoc.ok] using hok)
-    exact ⟨b, r, by simpa [Doc.text, XDoc.text] using h, hb⟩
+    obtain ⟨b, r, h, hb⟩ := xnum_first n (by simpa [XDoc.ok] using hok)
+    exact ⟨b, r, by simpa [XDoc.text] using h, hb⟩
 
 theorem gap_len (g : Gap) : True := trivial
 
@@ -84,7 +102,7 @@ theorem xchild_value (lc : Libc) (d : XDoc) (ihd : XGoal lc d) (g1 g2 : Gap) (t 
     (hok : d.ok = true) (hknf : d.erase.keysNulFree = true)
     (hdepth : rest.length + 2 + d.erase.nest ≤ t.maxDepth) (s : UInt8) (hsep : s = 44 ∨ s = 93 ∨ s = 125) (X : Bytes)
     (c : UInt8) (off : Nat) :
-    ∃ t2 l2 c2, t2.stack = ⟨.eatws, .finish, d.erase.denote, none⟩ :: ⟨pst, sv, cur, nm⟩ :: rest ∧ Frm t t2 ∧ WF t2 ∧ l2.num = none ∧
+    ∃ t2 l2 c2, t2.stack = ⟨.eatws, .finish, d.denote, none⟩ :: ⟨pst, sv, cur, nm⟩ :: rest ∧ Frm t t2 ∧ WF t2 ∧ l2.num = none ∧
       run lc t l c off (g1.text ++ (d.text ++ (g2.text ++ s :: X))) =
         run lc t2 l2 c2 (off + g1.text.length + d.text.length + g2.text.length) (s :: X) := by
   obtain ⟨ta, ca, hsa, fa, hwfa, hra⟩ := run_gap lc t l sv cur nm rest hwf hs hv hhs g1 hg1 (Or.inl hns) c off
@@ -103,7 +121,7 @@ theorem xchild_value (lc : Libc) (d : XDoc) (ihd : XGoal lc d) (g1 g2 : Gap) (t 
       ca (off + g1.text.length) rs'
   rw [hrun, ← htl]
   have f2' : Frm t t2 := fa.trans ⟨f2.md, f2.fl, f2.hs⟩
-  obtain ⟨tb, cb, hsb, fb, hwfb, hrb⟩ := run_gap lc t2 l2 .finish d.erase.denote none _ hwf2 hs2 (f2'.noVal hv) f2'.hs g2 hg2
+  obtain ⟨tb, cb, hsb, fb, hwfb, hrb⟩ := run_gap lc t2 l2 .finish d.denote none _ hwf2 hs2 (f2'.noVal hv) f2'.hs g2 hg2
     (Or.inl (by rw [f2'.strict]; exact hns)) (lastOr ca d.text) (off + g1.text.length + d.text.length) (s :: X)
   rw [hrb]
   exact ⟨tb, l2, cb, hsb, f2'.trans fb, hwfb, hl2, rfl⟩
